@@ -261,6 +261,12 @@ func (nd *node) Size() int64 {
 
 // truncate truncates the file.
 func (nd *node) truncate(size int64) {
+	// a file whose size changes has been modified, whoever truncates it
+	// (File.Truncate and OpenFile with O_TRUNC update the time even when the size stays the same).
+	if int(size) != len(nd.data) {
+		nd.mtime = time.Now().UnixNano()
+	}
+
 	if size == 0 {
 		nd.data = nil
 
